@@ -170,8 +170,25 @@ def ser_record(sf, rid, text_limit=2500):
             rec["lexst"] = "crash"
     else:
         rec["text"] = cps(text)
+    # auto-detection is claimed for SM unless VERSION is the first key, for SSC when it is
+    first_version = bool(sf) and next(iter(sf.keys())) == "VERSION"
+    det_claimed = (fmt == "sm") != first_version
     try:
-        re_ = type(sf)(string=text)
+        # the text is read back through one of the loader's entry points (they must all agree with the rules)
+        how = zlib.crc32(text.encode("utf-8", "surrogatepass")) % 5
+        if how == 1:
+            re_ = type(sf)(file=io.StringIO(text))
+        elif how == 2:
+            re_ = type(sf)(file=iter(text.splitlines(keepends=True)))
+        elif how == 3 and det_claimed:
+            re_ = simfile.loads(text)
+        elif how == 4 and det_claimed:
+            re_ = simfile.load(io.StringIO(text))
+        else:
+            re_ = type(sf)(string=text)
+        rec["re_entry"] = how
+        if type(re_) is not type(sf):
+            raise TypeError("re-read as %s" % type(re_).__name__)
         pr = elide_obj(re_, fmt) if rec["level"] == "params" else proj(re_)
         rec["re"] = {"st": "ok", "items": pr["items"], "charts": pr["charts"]}
         try:
@@ -180,9 +197,7 @@ def ser_record(sf, rid, text_limit=2500):
             rec["stable"] = False
     except Exception as e:  # noqa
         rec["re"] = {"st": type(e).__name__, "items": [], "charts": []}
-    # auto-detection is claimed for SM unless VERSION is the first key, for SSC when it is
-    first_version = bool(sf) and next(iter(sf.keys())) == "VERSION"
-    if (fmt == "sm") != first_version:
+    if det_claimed:
         try:
             rec["det"] = fmt_of(simfile.loads(text))
         except Exception as e:  # noqa
@@ -233,7 +248,15 @@ def rand_value(rng, maxlen=12):
 KEY_CHARS = "ABCXYZ0189_"
 
 
+KNOWN_KEYS = ["STOPS", "FREEZES", "BGCHANGES", "ANIMATIONS", "TITLE", "BPMS", "ATTACKS", "DISPLAYBPM"]
+
+
 def rand_key(rng, forbid=("NOTES",), allow_meta=True):
+    if rng.random() < 0.15:
+        # a known property or a legacy alias of one (an alias next to its standard key is just another key)
+        k = rng.choice(KNOWN_KEYS)
+        if k not in forbid:
+            return k
     for _ in range(50):
         n = rng.randint(1, 6)
         k = "".join(rng.choice(KEY_CHARS) for _ in range(n))
@@ -242,6 +265,32 @@ def rand_key(rng, forbid=("NOTES",), allow_meta=True):
         if k not in forbid and k.upper() == k and not py_gap(k) and "#" not in k:
             return k
     return "K"
+
+
+BOUNDARIES = [512, 1024, 2048, 4096, 8192, 16384, 65536]
+
+
+def boundary_objects(fmt, rng, deltas=range(-3, 4)):
+    """simfiles with ONE long value laid out so that an escaped character of the emitted text falls on or next
+    to a buffer-sized offset (0.5 KiB ... 64 KiB); the long value is the first property, or follows others"""
+    from simfile.sm import SMSimfile
+    from simfile.ssc import SSCSimfile
+    cls = SMSimfile if fmt == "sm" else SSCSimfile
+    for b in BOUNDARIES:
+        for d in deltas:
+            for first in (True, False):
+                sf = cls(string="")
+                if fmt == "ssc":
+                    sf["VERSION"] = "0.83"
+                if not first:
+                    sf["TITLE"] = "t"
+                key = rng.choice(["CREDIT", "TITLE2", "X"])
+                before = len(str(sf))
+                npre = b + d - before - 2 - len(key)
+                if npre < 0:
+                    continue
+                sf[key] = "x" * npre + rng.choice([":", ";", "\\", ":;", "\\\\"]) + rng.choice(["tail", "", " "])
+                yield sf, {"boundary": b, "delta": d, "first": first}
 
 
 def corpus_files():
